@@ -402,6 +402,14 @@ class Interp:
         if c == 'generateRandom' and len(e.get('args', [])) == 2 and e['args'][0] is not None and e['args'][0].get('k') == 'Var':
             st.env['size(%s)' % e['args'][0]['name']] = canon(e['args'][1], st.env)
             return
+        if c == 'push_back' and r is not None and len(e.get('args', [])) == 1 and e['args'][0] is not None:
+            # a concretely modelled small vector grows by one element
+            nm = canon(r, st.env)
+            sz = str(st.env.get('size(%s)' % nm, ''))
+            if sz.isdigit() and (int(sz) == 0 or ('operator[](%s,0)' % nm) in st.env):
+                st.env['operator[](%s,%s)' % (nm, sz)] = canon(e['args'][0], st.env)
+                st.env['size(%s)' % nm] = str(int(sz) + 1)
+            return
         if r is None or r.get('k') != 'Var' or r['kind'] not in ('local', 'param'):
             return
         if c in ('resize', 'wipe') and len(e.get('args', [])) >= 1 and e['args'][0] is not None:
